@@ -3204,7 +3204,10 @@ static int get_more_chars(struct scanner_s *scanner) {
 
         do {
             lead = u_memchr(lead, UCHAR_CR, bound - lead);
-            if ((!lead) || ((lead + 1 < bound) && (*(lead + 1) == UCHAR_NL))) {
+            if (!lead) {
+                break;
+            } else if ((lead + 1 < bound) && (*(lead + 1) == UCHAR_NL)) {
+                nread -= 1; /* this first CRLF will be converted to just LF, too */
                 break;
             } else {
                 *lead = UCHAR_NL;
